@@ -1675,11 +1675,25 @@ def _norm_div(v):
 
 
 # ---- drop_duplicates / unique / nunique --------------------------------------------------------------------------------
+def _no_negative_zero(df):
+    """-0.0 written as 0.0 in the float columns (one key, two representatives)"""
+    try:
+        df = df.copy()
+        for c in df.columns:
+            if getattr(df[c].dtype, "kind", "") == "f":
+                df[c] = df[c] + 0.0
+    except Exception:  # noqa: BLE001
+        pass
+    return df
+
+
 def _valuelist(x):
     """NA-normalised sorted value list of a Series / Index / array"""
     import pandas as pd
 
-    vals = [_norm(v) for v in pd.Series(x).astype(object).tolist()]
+    # Calibration: -0.0 and 0.0 are one key (they compare equal); which of the two representatives survives a
+    # de-duplication is not defined, so both are written as 0.0
+    vals = [0.0 if (isinstance(v, float) and v == 0.0) else v for v in (_norm(v) for v in pd.Series(x).astype(object).tolist())]
     return sorted(vals, key=lambda v: (v is None, repr(v)))
 
 
@@ -1773,7 +1787,7 @@ def _dedup(case, ctx, pdf, ddf):
             ctx.count("drop_duplicates_with_duplicates")
         ctx.distinct("dedup_feature", feat)
         kc = sub or cols
-        m = F.compare(got[kc], exp[kc], ordered=False, check_index=False)
+        m = F.compare(_no_negative_zero(got[kc]), _no_negative_zero(exp[kc]), ordered=False, check_index=False)
         if m is not None:
             ctx.violation("drop_duplicates:%s:keys" % PMZ if _pm_zero(p2[kc]) and spath != "tree-reduce" else
                           "drop_duplicates:frame%s:%s:%s:keys-%s" % ("&pre-shuffled" if kind == "preshuffled" else "",
